@@ -107,16 +107,30 @@ def draw_alphabet(tp: Tape, kmax=4, wide=False):
 # ---------------------------------------------------------------------------
 # skeletons (as Models, bonds without roles)
 
-FAMILIES = ("gnp", "tree", "cycle", "star", "union", "sparse", "double")
+FAMILIES = ("gnp", "tree", "cycle", "star", "union", "sparse", "double",
+            "bigstar")
 
 
 def skeleton(tp: Tape, cls, nmax=8, family=None, ids_mode=None, kmax=4,
              wide=False, nmin=0, max_deg=6, alpha=None):
     m = Model(cls)
     if family is None:
-        family = FAMILIES[tp.weighted([5, 4, 3, 4, 2, 2, 3])]
+        family = FAMILIES[tp.weighted([5, 4, 3, 4, 2, 2, 3, 1])]
     if family == "double":
         return _double(tp, cls, nmax, ids_mode, kmax, alpha)
+    if family == "bigstar":
+        # a centre with 7-8 ligands (no descriptor class exists for it)
+        k = 7 + tp.below(2)
+        ids = draw_ids(tp, k + 1 + tp.below(3), ids_mode)
+        if alpha is None:
+            alpha = draw_alphabet(tp, kmax, wide)
+        for a in ids:
+            m.add_atom(a, tp.pick(alpha))
+        for a in ids[1:k + 1]:
+            m.add_bond(ids[0], a)
+        for a in ids[k + 1:]:
+            m.add_bond(a, ids[1 + tp.below(k)])
+        return m
     n = nmin + tp.below(nmax - nmin + 1)
     ids = draw_ids(tp, n, ids_mode)
     if alpha is None:
@@ -794,3 +808,49 @@ def regular_role_pair(tp: Tape, cls="CRG"):
         return m
 
     return build(m1, role), build(m2, role2), name
+
+
+def random_regular(tp: Tape, cls="MG", z=6):
+    """random d-regular skeleton (d 3..5) on 8..14 atoms of one element, by
+    repeated pairing of stubs; None if the pairing fails"""
+    for _ in range(6):
+        d = 3 + tp.below(3)
+        n = 8 + tp.below(7)
+        if (n * d) % 2:
+            n += 1
+        stubs = tp.shuffle([i for i in range(n) for _ in range(d)])
+        edges = set()
+        ok = True
+        while stubs:
+            a = stubs.pop()
+            for k in range(len(stubs) - 1, -1, -1):
+                b = stubs[k]
+                if b != a and (min(a, b), max(a, b)) not in edges:
+                    edges.add((min(a, b), max(a, b)))
+                    stubs.pop(k)
+                    break
+            else:
+                ok = False
+                break
+        if ok:
+            m = Model(cls)
+            for i in range(n):
+                m.add_atom(i, z)
+            for a, b in sorted(edges):
+                m.add_bond(a, b)
+            return m
+    return None
+
+
+def history(tp: Tape, cls, ids, nsteps, elements=(6, 8, 1, 7)):
+    """a valid editing history (list of ops) and the model it leads to"""
+    from vp import ops as O
+    m = Model(cls)
+    ops = []
+    for _ in range(nsteps):
+        op = O.gen_op(tp, m, ids, elements=elements, allow_copy=False)
+        if op is None or op[0] == "relabel_copy":
+            continue
+        m = O.apply_model(m, op)
+        ops.append(op)
+    return ops, m
